@@ -427,7 +427,7 @@ def run_standard_case(cfg, want=("c01", "c05"), keep_output=False):
                 guards.append(Guarded(model))
                 try:
                     fs = FlowSampler(model, output=out, resume=True, **clone_kwargs(kw))
-                    fs.run(plot=False, save=True, **cfg.get("run_kwargs", {}))
+                    fs.run(**{"plot": False, "save": True, **cfg.get("run_kwargs", {})})
                     break
                 except KillSignal:
                     res["resumes"] += 1
@@ -881,7 +881,7 @@ def run_ins_case(cfg, want=("c03", "c05"), keep_output=False, run_kwargs=None):
                         if not kw.get("save_log_q", False):
                             mon.rederived = True
                         mon.check(fs.ns, "after-resume")
-                    fs.run(plot=False, save=True, **{**cfg.get("run_kwargs", {}), **(run_kwargs or {})})
+                    fs.run(**{"plot": False, "save": True, **cfg.get("run_kwargs", {}), **(run_kwargs or {})})
                     break
                 except KillSignal:
                     res["resumes"] += 1
